@@ -127,6 +127,7 @@ func (s *Sc) done() { s.r.Finish() }
 // F1: cadence x control-operation placement
 
 type cadenceCase struct {
+	StartH int64 // 0 = default
 	T      int64
 	F      uint64
 	Total  int64
@@ -139,7 +140,16 @@ type cadenceCase struct {
 
 func runCadence(a *App, mon *Mon, seed int64, c cadenceCase) {
 	p := baseParams()
-	s := newSc(a, mon, fmt.Sprintf("cadence-%+v", c), seed, p, 1_000_000, 3, "")
+	var s *Sc
+	if c.StartH > 0 {
+		r := NewRunAt(a, fmt.Sprintf("cadence-%+v", c), seed, p, mon, c.StartH)
+		act := MakeActors()
+		act.FundAll(r, 1_000_000_000, 1_000_000, 3)
+		r.Begin()
+		s = &Sc{r: r, A: act, p: p}
+	} else {
+		s = newSc(a, mon, fmt.Sprintf("cadence-%+v", c), seed, p, 1_000_000, 3, "")
+	}
 	p1, p2 := s.A.SignProv[0], s.A.SignProv[1]
 	s.define("svc")
 	s.bind("svc", p1, s.A.Owners[0], 1000, price("2"), 1)
@@ -231,6 +241,18 @@ func runCadence(a *App, mon *Mon, seed int64, c cadenceCase) {
 	s.done()
 }
 
+// low start heights with frequencies around the byte boundaries of the height keys
+func lowStartCases() []cadenceCase {
+	var out []cadenceCase
+	for _, sh := range []int64{1, 2, 3} {
+		for _, F := range []uint64{255, 256, 511, 767, 65535} {
+			out = append(out, cadenceCase{StartH: sh, T: 1, F: F, Total: 3, Op: "none", Answer: int(sh) % 3})
+			out = append(out, cadenceCase{StartH: sh, T: 2, F: F, Total: -1, Op: "pause", OpAt: 1, Start: 2, Answer: 1})
+		}
+	}
+	return out
+}
+
 func cadenceCases() []cadenceCase {
 	var out []cadenceCase
 	for _, T := range []int64{1, 2, 3} {
@@ -261,6 +283,7 @@ func cadenceCases() []cadenceCase {
 			}
 		}
 	}
+	out = append(out, lowStartCases()...)
 	// module-owned variants of a subset
 	n := len(out)
 	for i := 0; i < n; i += 7 {
@@ -275,16 +298,16 @@ func cadenceCases() []cadenceCase {
 // F2: response placement
 
 type respCase struct {
-	T       int64
-	NProv   int
-	Offsets []int // per provider: 0 = never, k = k blocks after issue (1..T+1)
-	Kinds   []int // per provider: 0 good, 1 malformed, 2 no output
-	Twice   bool
+	T        int64
+	NProv    int
+	Offsets  []int // per provider: 0 = never, k = k blocks after issue (1..T+1)
+	Kinds    []int // per provider: 0 good, 1 malformed, 2 no output
+	Twice    bool
 	Stranger bool
-	Mid     string // none|pause|kill|update : context operation one block after issue
-	Module  bool
-	Thr     uint32
-	Super   bool
+	Mid      string // none|pause|kill|update : context operation one block after issue
+	Module   bool
+	Thr      uint32
+	Super    bool
 }
 
 func runResp(a *App, mon *Mon, seed int64, c respCase) {
@@ -384,12 +407,12 @@ func respCases(rng *rand.Rand, n int) []respCase {
 // F3: consumer funds around the batch cost, one or several due contexts
 
 type fundsCase struct {
-	Margin  int64 // consumer balance = cost*NCtxPaid + Margin
-	NCtx    int   // contexts of the same consumer due in the same block
-	Paid    int   // how many of them the balance covers
-	Super   bool
-	Module  bool
-	Base    string
+	Margin int64 // consumer balance = cost*NCtxPaid + Margin
+	NCtx   int   // contexts of the same consumer due in the same block
+	Paid   int   // how many of them the balance covers
+	Super  bool
+	Module bool
+	Base   string
 }
 
 func runFunds(a *App, mon *Mon, seed int64, c fundsCase) {
@@ -765,9 +788,9 @@ func depositCases() []depositCase {
 // F6: earnings and withdrawals with prefix-related providers
 
 type earnCase struct {
-	Order   int // permutation index of the withdrawals
-	WaWhen  int // 0 never, 1 before earnings, 2 between, 3 after
-	Tax     string
+	Order  int // permutation index of the withdrawals
+	WaWhen int // 0 never, 1 before earnings, 2 between, 3 after
+	Tax    string
 }
 
 func runEarn(a *App, mon *Mon, seed int64, c earnCase) {
@@ -1027,7 +1050,6 @@ func runNames(a *App, mon *Mon, seed int64, variant int) {
 	s.done()
 }
 
-
 // ---------------------------------------------------------------------------
 // F10: a batch that completes early (everybody answers), then pause/start/kill placed
 // between the completion and the batch's expiry block
@@ -1110,7 +1132,6 @@ func earlyCases() []earlyCase {
 	return out
 }
 
-
 // ---------------------------------------------------------------------------
 // F11: volume marathon: one request per block answered every block, volume tiers far apart
 
@@ -1169,7 +1190,6 @@ func runMarathon(a *App, mon *Mon, seed int64, variant int) {
 	s.done()
 }
 
-
 // ---------------------------------------------------------------------------
 // F12: crowd: many objects at once - N contexts of several consumers created in one block
 // (all start, expire and re-start in the same blocks, all name the same provider), and more
@@ -1204,6 +1224,33 @@ func runCrowd(a *App, mon *Mon, seed int64, n int, nprov int) {
 		}
 	}
 	for b := 0; b < 9; b++ {
+		s.block()
+	}
+	s.done()
+}
+
+// F13: one very busy block: n one-shot contexts to two providers, nobody answers, so 2n
+// requests are issued in one end-of-block and 2n expire (slash + refund) in another.
+// End-of-block always runs through AppModule.EndBlock here.
+func runBusyBlock(a *App, mon *Mon, seed int64, n int) {
+	p := baseParams()
+	p.MinDeposit = coins(1)
+	p.MinDepositMultiple = 1
+	p.SlashFraction = sdk.NewDecWithPrec(1, 3)
+	r := NewRun(a, fmt.Sprintf("busy-block-%d", n), seed, p, mon)
+	act := MakeActors()
+	act.FundAll(r, 1_000_000_000, 1_000_000, 3)
+	r.SetViaApp(true)
+	r.Begin()
+	s := &Sc{r: r, A: act, p: p}
+	p1, p2 := act.SignProv[0], act.SignProv[1]
+	s.define("svc")
+	s.bind("svc", p1, act.Owners[0], 100000000, price("1"), 1)
+	s.bind("svc", p2, act.Owners[1], 100000000, price("2"), 1)
+	for i := 0; i < n; i++ {
+		s.call("svc", []sdk.AccAddress{p1, p2}, act.Consumers[i%2], 5, 2, false, false, 0, 0)
+	}
+	for b := 0; b < 5; b++ {
 		s.block()
 	}
 	s.done()
@@ -1266,6 +1313,12 @@ func directedJobs(prop, tier string, seed int64) []job {
 		c := cc[i]
 		add("cadence", func(a *App, mon *Mon) *Run { runCadence(a, mon, seed, c); return mon.run })
 	}
+	if !thorough && serves("C10", "C11", "C18", "C08") {
+		for _, c := range lowStartCases() {
+			c := c
+			add("cadence-low-start", func(a *App, mon *Mon) *Run { runCadence(a, mon, seed, c); return mon.run })
+		}
+	}
 	for _, c := range respCases(rng, q(40*weight("C08", "C02", "C12", "C04"), 3000)) {
 		c := c
 		add("resp", func(a *App, mon *Mon) *Run { runResp(a, mon, seed+int64(len(c.Offsets)), c); return mon.run })
@@ -1308,6 +1361,9 @@ func directedJobs(prop, tier string, seed int64) []job {
 		add("whale", func(a *App, mon *Mon) *Run { runWhale(a, mon, seed, v); return mon.run })
 	}
 	add("crowd", func(a *App, mon *Mon) *Run { runCrowd(a, mon, seed, 45, 0); return mon.run })
+	if thorough || serves("C20") {
+		add("busy-block", func(a *App, mon *Mon) *Run { runBusyBlock(a, mon, seed, 260); return mon.run })
+	}
 	if thorough || serves("C02", "C08", "C12", "C15", "C16", "C17") {
 		add("crowd", func(a *App, mon *Mon) *Run { runCrowd(a, mon, seed, 135, 105); return mon.run })
 	}
